@@ -121,7 +121,8 @@ def gen_message_history(rng, n, strict=False, reject=False):
         elif k == 7:
             ops.append(['mdeli', s.lower(), rng.randrange(0, 3)])
         else:
-            ops.append(['mpath', s.lower(), '%s_1' % s.lower(), rng.choice(['7', '8'])])
+            ops.append(['mpath', s.lower(), '%s_1' % s.lower(), rng.choice(['7', '8'])] if rng.random() < .7 or s in ('ZZ1',) else
+                       ['mpath_basedt_refused', s.lower(), {'EVN': 'evn_5', 'PID': 'pid_3', 'NK1': 'nk1_2', 'PV1': 'pv1_3', 'OBX': 'obx_3', 'AL1': 'al1_3', 'DG1': 'dg1_3'}[s]])
         if rng.random() < .25:
             # one level of groups: segments reached, added and deleted through a group of the message
             g, gs = rng.choice([('ADT_A01_INSURANCE', ['IN1', 'IN2', 'IN3']), ('ADT_A01_PROCEDURE', ['PR1', 'ROL'])])
@@ -580,6 +581,11 @@ def run_history(h):
             elif kind == 'mdeli':
                 del getattr(root, op[1])[op[2]]
                 spec.delete(op[1].upper(), op[2])
+            elif kind == 'mpath_basedt_refused':
+                # `message.<segment>.<complex field> = ST('x')`: refused (a base-datatype object for a child of a complex datatype) — and when the segment
+                # was only reached by traversal, it is NOT left behind in the message (defect D47)
+                from hl7apy.v2_5 import ST
+                setattr(getattr(root, op[1]), op[2], ST('x'))
             elif kind == 'mpath':
                 # assignment at the end of a chain through a possibly absent segment: materialises exactly that chain
                 had = len(getattr(root, op[1]))
